@@ -97,7 +97,7 @@ func (k *c03Classify) onlyForType(o c03Outcome, typ int64) (c03Tri, string) {
 			continue
 		}
 		f := c03NoFacts().term("m:Type("+k.msgT+")", constant.MakeInt64(t))
-		reach, und := k.eng.under(f).reachable(o.pt)
+		reach, und := k.eng.reachableUnder(o, f)
 		if und {
 			res = c03Maybe
 			continue
@@ -126,7 +126,7 @@ func (k *c03Classify) equalAt(o c03Outcome, t, want string) c03Tri {
 		a, b = b, a
 	}
 	f := c03NoFacts().term("eq("+a+","+b+")", c03Bool(false))
-	reach, und := k.eng.under(f).reachable(o.pt)
+	reach, und := k.eng.reachableUnder(o, f)
 	if und {
 		return c03Maybe
 	}
@@ -157,7 +157,7 @@ func (k *c03Classify) quorumGate(o c03Outcome) (c03Tri, string) {
 			why = "the quorum comparison is neither `>=` nor `<`"
 			continue
 		}
-		reach, und := k.eng.under(c03NoFacts().val(q.bin, c03Bool(!q.reached))).reachable(o.pt)
+		reach, und := k.eng.reachableUnder(o, c03NoFacts().val(q.bin, c03Bool(!q.reached)))
 		if und {
 			res, why = c03Maybe, "reachability under a failed quorum comparison could not be decided"
 			continue
@@ -289,8 +289,7 @@ func c03V3(c *rt.Ctx) {
 			"the qcommit returned with UponJustifiedDecided is not the justification that isJustifiedDecided counted", "the list returned with UponJustifiedDecided could not be resolved")
 	}
 
-	c03V3Route(c, decidedT)
-	c03V3Decided(c, commitT)
+	c03V3Route(c, decidedT, commitT)
 
 	// Run: Decide only for the two deciding rules, with the value/round of the message and classify's justification
 	r := c03NewRun(c)
@@ -322,9 +321,28 @@ func c03V3(c *rt.Ctx) {
 // (a merge of several assignments, an unknown variable) is undecided.
 func c03TermIs(c *rt.Ctx, r *c03Run, key string, pos token.Pos, fr *c03Frame, v ssa.Value, want, bad string) {
 	t := r.eng.term(fr, v)
+	deepHelper := false
+	if t != want {
+		// handed through a helper that returns it (or nothing) on every return
+		dv, dfr := r.eng.resolveDeep(fr, v, 0)
+		if dt := r.eng.term(dfr, dv); dt == want {
+			t = dt
+		} else {
+			var call *ssa.Call
+			switch y := dv.(type) {
+			case *ssa.Extract:
+				call, _ = y.Tuple.(*ssa.Call)
+			case *ssa.Call:
+				call = y
+			}
+			deepHelper = call != nil && r.eng.callee(&call.Call) != nil
+		}
+	}
 	switch {
 	case t == want:
 		c.Good(key, pos, "")
+	case deepHelper:
+		c.Unsure(key, pos, "the argument is the result of an in-package helper that hands out different values on different returns")
 	case t == "":
 		rv, rfr := r.eng.resolve(fr, v)
 		if ld, ok := rv.(*ssa.UnOp); ok && ld.Op == token.MUL && r.cellOf(ld) != nil {
@@ -387,7 +405,7 @@ func c03TermIs(c *rt.Ctx, r *c03Run, key string, pos token.Pos, fr *c03Frame, v 
 }
 
 // c03V3Route: for a DECIDED message isJustified returns exactly the verdict of isJustifiedDecided(msg).
-func c03V3Route(c *rt.Ctx, decidedT int64) {
+func c03V3Route(c *rt.Ctx, decidedT, commitT int64) {
 	ij := c.Fn(c03P + ".isJustified")
 	m := c03ParamOfType(c, ij, c03P+".Msg")
 	eng := c03NewEng(ij.Pkg)
@@ -429,6 +447,10 @@ func c03V3Route(c *rt.Ctx, decidedT int64) {
 		switch {
 		case st == c03Known:
 			c.Good(key, ij.Pos(), "a DECIDED message is never accepted")
+		case len(other) == 0 && c03V3DecidedIn(c, commitT, ij, typeFact, true):
+			// the verdict for a DECIDED message is computed in place (isJustifiedDecided inlined): the
+			// obligations on the commit quorum were checked on isJustified itself under "msg.Type() == DECIDED"
+			c.Good(key, ij.Pos(), "for a DECIDED message isJustified accepts only behind the commit quorum comparison")
 		case st == c03Opaque && len(other) == 0:
 			c.Unsure(key, at, "for a DECIDED message "+why)
 		default:
@@ -454,12 +476,14 @@ func c03V3Route(c *rt.Ctx, decidedT int64) {
 			c.Bad(key, at, fmt.Sprintf("for a DECIDED message isJustified does not return the verdict of isJustifiedDecided on that message: with isJustifiedDecided=%v, %s", verdict, why))
 		}
 	}
+	c03V3DecidedIn(c, commitT, c.Fn(c03P+".isJustifiedDecided"), c03NoFacts, false)
 }
 
-// c03V3Decided: isJustifiedDecided accepts only behind len(filterMsgs(msg.Justification(), COMMIT,
-// msg.Round(), &msg.Value())) >= Quorum().
-func c03V3Decided(c *rt.Ctx, commitT int64) {
-	fn := c.Fn(c03P + ".isJustifiedDecided")
+// c03V3DecidedIn: fn (isJustifiedDecided, or isJustified itself under the assumption "the message is a
+// DECIDED") accepts only behind len(filterMsgs(msg.Justification(), COMMIT, msg.Round(),
+// &msg.Value())) >= Quorum(). With probe set nothing is reported unless such a gate exists (the result
+// tells whether the obligations were reported).
+func c03V3DecidedIn(c *rt.Ctx, commitT int64, fn *ssa.Function, base func() c03Facts, probe bool) bool {
 	msg := c03ParamOfType(c, fn, c03P+".Msg")
 	eng := c03NewEng(fn.Pkg)
 	fr := eng.root(fn)
@@ -480,13 +504,16 @@ func c03V3Decided(c *rt.Ctx, commitT int64) {
 			strict = true
 			continue
 		}
-		st, _, _ := c03AllReturn(eng.under(c03NoFacts().val(q.bin, c03Bool(!q.reached))), fr, false)
+		st, _, _ := c03AllReturn(eng.under(base().val(q.bin, c03Bool(!q.reached))), fr, false)
 		switch st {
 		case c03Known:
 			gates = append(gates, q)
 		case c03Opaque:
 			maybe = true
 		}
+	}
+	if probe && len(gates) == 0 {
+		return false
 	}
 	key := "isJustifiedDecided verdict"
 	if len(gates) == 0 {
@@ -495,7 +522,7 @@ func c03V3Decided(c *rt.Ctx, commitT int64) {
 			c.Unsure(key, fn.Pos(), "whether a failed quorum comparison forces the verdict false could not be decided")
 		case len(qcmps) == 0:
 			// no comparison with a threshold at all, here or in the helpers entered: is the verdict delegated opaquely?
-			st, at, why := c03AllReturn(eng, fr, false)
+			st, at, why := c03AllReturn(eng.under(base()), fr, false)
 			if st == c03Opaque {
 				c.Unsure(key, at, why)
 			} else {
@@ -505,7 +532,7 @@ func c03V3Decided(c *rt.Ctx, commitT int64) {
 			_, _ = strict, wrongThr
 			c.Bad(key, fn.Pos(), "an accepting return does not depend on len(filterMsgs(...)) >= Quorum()")
 		}
-		return
+		return true
 	}
 	var spec *c03Spec
 	worst := c03SpecOK
@@ -525,7 +552,7 @@ func c03V3Decided(c *rt.Ctx, commitT int64) {
 	}
 	if spec == nil {
 		c.Unsure(key, fn.Pos(), "the verdict depends on a quorum comparison whose counted list is not a recognisable filterMsgs call")
-		return
+		return true
 	}
 	pos := spec.call.Pos()
 	c.Check("isJustifiedDecided counts the message's own justification", pos, spec.msgs == "m:Justification("+mt+")", "the counted list is not msg.Justification()")
@@ -540,4 +567,5 @@ func c03V3Decided(c *rt.Ctx, commitT int64) {
 	c.Check("isJustifiedDecided filters by the message's round", pos, spec.round == "m:Round("+mt+")", "COMMITs are not filtered by msg.Round()")
 	c.Check("isJustifiedDecided filters by the message's value", pos, spec.value == "m:Value("+mt+")" && spec.pr == "" && spec.pv == "",
 		"COMMITs are not filtered by msg.Value(): commits for different values add up to a quorum")
+	return true
 }
